@@ -5,17 +5,25 @@ mod uri;
 use vh_common::{Args, Report};
 
 fn main() {
+    let raw: Vec<String> = std::env::args().collect();
+    match raw.get(1).map(|s| s.as_str()) {
+        Some("load-json") => {
+            json::child_load(&raw[2]);
+            return;
+        }
+        Some("probe-load") => {
+            let v = emmylua_code_analysis::load_configs_raw(vec![std::path::PathBuf::from(&raw[2])], None);
+            println!("{v}");
+            return;
+        }
+        _ => {}
+    }
     let args = Args::parse();
     vh_common::silence_panics();
     let mut report = Report::default();
     match args.prop.as_str() {
         "C34" => uri::run(&args, &mut report),
         "C31" | "C32" => json::run(&args, &mut report),
-        "load-json" => {
-            let f = std::env::args().nth(2).expect("file");
-            json::child_load(&f);
-            return;
-        }
         "gen-uri" => {
             std::fs::write(&args.out, serde_json::to_string(&uri::tables()).unwrap()).expect("write tables");
             return;
